@@ -526,6 +526,14 @@ class NCCHReader(TypeReaderCryptoBase):
         self._seeded_key_y = sha256(self._key_y + seed).digest()[0:16]
         self._seed_set_up = True
 
+    @staticmethod
+    def _read_locked(fh: 'BinaryIO', offset: int, size: int) -> bytes:
+        """
+        Read from a file that other handles of this reader have windows on. A window is used here too, so the seek and
+        the read happen under the lock all windows on that file share and can't be torn apart by another thread.
+        """
+        return SubsectionIO(fh, offset, max(size, 0)).read(size)
+
     def get_data(self, section: 'Union[NCCHRegion, NCCHSection]', offset: int, size: int) -> bytes:
         """
         Get data from an NCCH section.
@@ -627,22 +635,19 @@ class NCCHReader(TypeReaderCryptoBase):
             # check if decryption is really needed
             if self._assume_decrypted or self.flags.no_crypto or region.section in NO_ENCRYPTION:
                 # this is currently used to support FullDecrypted. other sections use SubsectionIO + CTRFileIO.
-                self._file.seek(self._start + region.offset + offset)
-                return self._file.read(size)
+                return self._read_locked(self._file, self._start + region.offset + offset, size)
 
             # thanks Stary2001 for help with random-access crypto
 
             # if the region is ExeFS and extra crypto is being used, special handling is required
             #   because different parts use different encryption methods
             if region.section == NCCHSection.ExeFS:
-                self._exefs_fp.seek(offset)
-                return self._exefs_fp.read(size)
+                return self._read_locked(self._exefs_fp, offset, size)
             else:
                 # this is currently used to support FullDecrypted. other sections use SubsectionIO + CTRFileIO.
 
-                # seek to the real offset of the section + the requested offset
-                self._file.seek(self._start + region.offset + offset)
-                data = self._file.read(size)
+                # read from the real offset of the section + the requested offset
+                data = self._read_locked(self._file, self._start + region.offset + offset, size)
 
                 # choose the extra keyslot only for RomFS here
                 # ExeFS needs special handling if a newer keyslot is used, therefore it's not checked here
